@@ -24,6 +24,17 @@ CLAIMED = {
              "numpy exp passed as data.",
         technique="Coq proof by induction over edge lists + vm_compute/PrimFloat entry-wise correspondence",
         design="7/C03"),
+    "C10": dict(
+        text="Coq theorem: for every mesh with canonical (sorted, duplicate-free) edges, every pinned set and every finite "
+             "sequence of link variables, the in-place refreshed Laplacian equals the rebuilt one at every entry (pinned rows "
+             "included); trigger theorem: with an exact comparison the operators hold the latest potential after every step "
+             "(and a refutation for the tolerance comparison the code used before the fix). Correspondence: MeshOperators after "
+             "1-6 refreshes vs Model.Refresh.ops_after (every stored entry) and vs a rebuild (bit-for-bit); real runs with "
+             "ramped / piecewise fields and screening checked after every update.",
+        note="Coq kernel; stdlib real-number axioms; scipy sparse __setitem__ modelled as ordered overwrites (set_many) and "
+             "compared; numpy exp passed as data.",
+        technique="Coq proof (induction over refresh sequences, NoDup positions) + vm_compute correspondence + rebuild oracle",
+        design="7/C10"),
 }
 
 PENDING_REASON = "check not built yet in this session (planned, see DESIGN.md section 7); not claimed until it runs"
